@@ -193,6 +193,9 @@ type Sim struct {
 	calls       int
 }
 
+// Alive, if set, is called every 8192 scheduler steps of a run (the worker's watchdog counts it as progress).
+var Alive func()
+
 func New(policy Policy, seed uint64) *Sim {
 	return &Sim{
 		tasks:      map[uint64]*Task{},
@@ -472,6 +475,9 @@ func (s *Sim) run(bodies []func()) {
 			s.violate(VStepBudget, fmt.Sprintf("%d steps", s.Steps))
 			s.mu.Unlock()
 			break
+		}
+		if s.Steps&8191 == 8191 && Alive != nil {
+			Alive() // very long runs: scheduler steps are progress (a run that loops through hooks ends at the step budget)
 		}
 		i := s.choose(P)
 		t := P[i]
